@@ -60,6 +60,19 @@ def special_models():
     out.append(('no-ports', noports,
                 {'enc': ['A', 'Comp'], 'prov': {'sts': shell.ALL, 'mts': shell.NONE}, 'req': {'sts': shell.ALL, 'mts': shell.NONE},
                  'mc': nomc, 'origin': 'import', 'prefix': ['P'], 'suffix': 'Shell', 'base': 'Mod'}))
+    # the interface lives in a global namespace named like the component's innermost namespace: a relative C++ name
+    # (B::I0 written inside namespace A::B) would denote something else than the Dezyne name
+    i0 = [{'name': 'Go', 'dir': 'in', 'reply': ['void'], 'formals': [F('a', 'T')]},
+          {'name': 'Done', 'dir': 'out', 'reply': ['void'], 'formals': [F('a', 'T')]}]
+    shadow = [model.new_decl('extern', ['T'], cpp=T1), model.new_decl('interface', ['B', 'I0'], events=i0),
+              model.new_decl('component', ['A', 'B', 'Comp'], ports=[
+                  {'name': 'api', 'type': ['B', 'I0'], 'dir': 'provides', 'inj': False},
+                  {'name': 'hal', 'type': ['B', 'I0'], 'dir': 'requires', 'inj': False}])]
+    for sem, tag in ((shell.ALL, 'sts'), (shell.NONE, 'mts')):
+        other = shell.NONE if sem is shell.ALL else shell.ALL
+        out.append((f'shadowed-namespace-{tag}', shadow,
+                    {'enc': ['A', 'B', 'Comp'], 'prov': {'sts': sem, 'mts': other}, 'req': {'sts': sem, 'mts': other},
+                     'mc': nomc, 'origin': 'create', 'prefix': ['A'], 'suffix': 'Shell', 'base': 'Mod'}))
     return out
 
 
@@ -234,7 +247,7 @@ def check_c06(tier, seed):
     models = special_models()
     n = 5 if tier == 'quick' else 30
     k = 0
-    while len(models) < n + 2 and k < 10 * n:
+    while len(models) < n + 4 and k < 10 * n:
         k += 1
         decls, cfg, _ = gen_model(rng, want_mc=(k % 2 == 0), clash=(k % 3 == 0), nports=(3 if k % 2 == 0 else None))
         if k % 2 == 0 and sum(1 for p in decls[-1]['ports'] if p['dir'] == 'provides') < 2:
